@@ -19,12 +19,22 @@ band None on a multiband image, negative cross_checking_threshold, unknown extra
 
 Levels:  L1 the step class through its registry dispatcher (AbstractX(**cfg).cfg);  L2 PandoraMachine.check_conf on a
 minimal pipeline containing the step;  L3 pandora.check_configuration.check_conf on a whole configuration (8-step pipeline,
-GeoTIFF crops of the images under /repo/tests/pandora, monoband and multiband).
+GeoTIFF crops of the images under /repo/tests/pandora, monoband and multiband);  L2p (band checks only)
+pandora.check_configuration.check_pipeline_section on image metadata.
+
+Band checks ("band absent from the image" -- from EITHER image -- is rejected before any processing): besides the pairs
+with identical band sets, pairs whose left and right images carry DIFFERENT band sets (BAND_PAIRS: (r,g,b)|(g,b,n) and
+its mirror, (r,g,b)|(r,g) and mirror, multiband|monoband and mirror; synthetic GeoTIFFs written by write_band_pair, band
+names = rasterio band descriptions) are checked at L2 / L2p / L3 with pipelines without and with a validation step (the
+validation step makes the machine check a second time with the images swapped, which can mask a one-sided check).
+Oracle: a named band is accepted iff it is a band of the left AND of the right image.
 """
 import copy
 import itertools
 import math
+import os
 import tempfile
+import warnings
 
 import numpy as np
 
@@ -152,6 +162,44 @@ class Ctx:
         self.inp_multi = P.write_small_images(tmp, self.shape, tag="_rgb", bands=["r", "g", "b"])
         self.meta_mono = P.metadata(self.inp_mono)
         self.meta_multi = P.metadata(self.inp_multi)
+        # image pairs whose left and right band sets differ
+        self.pairs = {}
+        for name, (lb, rb) in BAND_PAIRS.items():
+            inp = write_band_pair(tmp, self.shape, name, lb, rb)
+            self.pairs[name] = (inp, P.metadata(inp))
+
+    def images(self, images=None, multiband=False):
+        """-> (input section, (left metadata, right metadata))"""
+        if images is not None:
+            return self.pairs[images]
+        return (self.inp_multi, self.meta_multi) if multiband else (self.inp_mono, self.meta_mono)
+
+
+# name -> (left band names, right band names); None = monoband image (no band description)
+BAND_PAIRS = {"rgb-gbn": (["r", "g", "b"], ["g", "b", "n"]), "gbn-rgb": (["g", "b", "n"], ["r", "g", "b"]),
+              "rgb-rg": (["r", "g", "b"], ["r", "g"]), "rg-rgb": (["r", "g"], ["r", "g", "b"]),
+              "rgb-mono": (["r", "g", "b"], None), "mono-rgb": (None, ["r", "g", "b"])}
+
+
+def write_band_pair(tmpdir, shape, name, left_bands, right_bands):
+    """Two synthetic GeoTIFFs of the same size (integer-valued float32 ramps, right = left shifted by 2 columns) whose
+    band descriptions are the given names; returns the 'input' section.  Only the metadata matter for checking."""
+    import rasterio
+    rows, cols = shape
+    base = (np.arange(rows)[:, None] * 7 + np.arange(cols + 2)[None, :] * 13) % 251
+    paths = {}
+    with warnings.catch_warnings():
+        warnings.simplefilter("ignore")
+        for side, bands, shift in (("left", left_bands, 0), ("right", right_bands, 2)):
+            count = 1 if bands is None else len(bands)
+            arr = np.stack([(base[:, shift:shift + cols] + 17 * i) % 251 for i in range(count)]).astype(np.float32)
+            path = os.path.join(tmpdir, "%s_%s_%dx%d.tif" % (side, name, rows, cols))
+            with rasterio.open(path, "w", driver="GTiff", height=rows, width=cols, count=count, dtype="float32") as dst:
+                dst.write(arr)
+                for i, b in enumerate(bands or ()):
+                    dst.set_band_description(i + 1, b)
+            paths[side] = path
+    return {"left": {"img": paths["left"], "disp": [-3, 1]}, "right": {"img": paths["right"]}}
 
 
 def call_l1(kind, cfg, ctx):
@@ -204,6 +252,23 @@ def pipe_l3(kind, cfg):
     return pipe
 
 
+def build_pipe(level, kind, cfg, pipe=None):
+    """pipe: None (the level's usual pipeline) | 'min' | 'min+validation' | 'long-novalidation' | 'long'"""
+    if pipe is None:
+        pipe = "long" if level == "L3" else "min"
+    if pipe == "min":
+        return pipe_l2(kind, cfg)
+    if pipe == "min+validation":
+        out = pipe_l2(kind, cfg)
+        for k in ("disparity", "validation"):
+            out.setdefault(k, copy.deepcopy(PLAIN[k]))
+        return out
+    out = pipe_l3(kind, cfg)
+    if pipe == "long-novalidation":
+        del out["validation"]
+    return out
+
+
 def attempt(fun):
     """-> (True, result) | (False, 'ExcType: msg')"""
     try:
@@ -212,22 +277,28 @@ def attempt(fun):
         return False, "%s: %s" % (type(exc).__name__, str(exc).replace("\n", " ")[:90])
 
 
-def run_level(level, kind, cfg, ctx, multiband=False):
+def run_level(level, kind, cfg, ctx, multiband=False, images=None, pipe=None):
     """-> (accepted, completed step cfg or error text, mutated?, whole result or None, user_cfg)"""
+    inp, metas = ctx.images(images, multiband)
     if level == "L1":
         user = cfg
         before = copy.deepcopy(user)
         ok, res = attempt(lambda: call_l1(kind, user, ctx))
         return ok, res, not P.cfg_equal(before, user, ordered=True), None, before
     if level == "L2":
-        user = {"pipeline": pipe_l2(kind, cfg)}
+        user = {"pipeline": build_pipe(level, kind, cfg, pipe)}
         before = copy.deepcopy(user)
         machine = PandoraMachine()
-        metas = ctx.meta_multi if multiband else ctx.meta_mono
         ok, res = attempt(lambda: machine.check_conf(user, metas[0], metas[1]))
         step = machine.pipeline_cfg["pipeline"].get(kind) if ok else res
         return ok, step, not P.cfg_equal(before, user, ordered=True), (machine.pipeline_cfg if ok else None), before
-    user = {"input": copy.deepcopy(ctx.inp_multi if multiband else ctx.inp_mono), "pipeline": pipe_l3(kind, cfg)}
+    if level == "L2p":
+        user = {"pipeline": build_pipe(level, kind, cfg, pipe)}
+        before = copy.deepcopy(user)
+        ok, res = attempt(lambda: check_configuration.check_pipeline_section(user, metas[0], metas[1], PandoraMachine()))
+        step = res["pipeline"].get(kind) if ok else res
+        return ok, step, not P.cfg_equal(before, user, ordered=True), (res if ok else None), before
+    user = {"input": copy.deepcopy(inp), "pipeline": build_pipe(level, kind, cfg, pipe)}
     before = copy.deepcopy(user)
     ok, res = attempt(lambda: check_configuration.check_conf(user, PandoraMachine()))
     step = res["pipeline"].get(kind) if ok else res
@@ -246,12 +317,12 @@ def same_value(a, b):
 # ---------------------------------------------------------------------------------------------------------------------
 # judging one case
 # ---------------------------------------------------------------------------------------------------------------------
-def judge(level, cls_id, cfg, verdict, fam, lab, ctx, multiband=False, focus=None):
+def judge(level, cls_id, cfg, verdict, fam, lab, ctx, multiband=False, focus=None, images=None, pipe=None):
     """cfg: the user's step configuration (method key + some parameters); verdict: ACC / REJ (oracle);
     -> list of (clause, witness_class, message)"""
     _, kind, mkey, _, params = SPEC_BY_ID[cls_id]
     user_step = copy.deepcopy(cfg)
-    ok, step, mutated, whole, before = run_level(level, kind, cfg, ctx, multiband)
+    ok, step, mutated, whole, before = run_level(level, kind, cfg, ctx, multiband, images, pipe)
     dom = "C05.domain" if fam == "core" else "C05.docdomain"
     pname = focus or "+".join(k for k in user_step if k != mkey) or "method"
     out = []
@@ -264,7 +335,7 @@ def judge(level, cls_id, cfg, verdict, fam, lab, ctx, multiband=False, focus=Non
                     "%s %s with %s is outside the documented domain but was accepted -> %s"
                     % (level, cls_id, user_step, step)))
     if mutated:
-        where = {"L1": "class", "L2": "machine", "L3": "check_conf"}[level]
+        where = {"L1": "class", "L2": "machine", "L2p": "check_pipeline_section", "L3": "check_conf"}[level]
         out.append(("C05.nomutate.%s.%s" % (where, kind), "user-dict-mutated@%s" % level,
                     "%s %s: the dictionary handed in was modified: before %s" % (level, cls_id, before)))
     if not ok:
@@ -297,7 +368,7 @@ def judge(level, cls_id, cfg, verdict, fam, lab, ctx, multiband=False, focus=Non
             out.append(("C05.idem.%s" % cls_id, "recheck-differs", "checking the result %s again gives %s" % (step, again)))
     elif level == "L3":
         out += judge_whole(whole, before, ctx)
-    elif level == "L2":
+    elif level in ("L2", "L2p"):
         if list(whole["pipeline"]) != list(before["pipeline"]):
             out.append(("C05.order.pipeline", "steps-reordered", "steps %s checked as %s"
                         % (list(before["pipeline"]), list(whole["pipeline"]))))
@@ -347,11 +418,12 @@ class Driver:
         self.rec, self.ctx = rec, ctx
         self.failed_single = set()      # (class, parameter, label) whose verdict already failed alone
 
-    def case(self, level, cls_id, cfg, verdict, fam, lab, multiband=False, focus=None, part="grid"):
+    def case(self, level, cls_id, cfg, verdict, fam, lab, multiband=False, focus=None, part="grid", images=None,
+             pipe=None):
         witness = {"part": part, "level": level, "cls": cls_id, "cfg": enc(cfg), "verdict": verdict, "fam": fam,
-                   "label": lab, "multiband": multiband, "focus": focus}
-        probs = judge(level, cls_id, cfg, verdict, fam, lab, self.ctx, multiband, focus)
-        self.rec.case(key=(part, level, cls_id, witness["cfg"], multiband), nontrivial=True,
+                   "label": lab, "multiband": multiband, "focus": focus, "images": images, "pipe": pipe}
+        probs = judge(level, cls_id, cfg, verdict, fam, lab, self.ctx, multiband, focus, images, pipe)
+        self.rec.case(key=(part, level, cls_id, witness["cfg"], multiband, images, pipe), nontrivial=True,
                       sample={"level": level, "class": cls_id, "cfg": witness["cfg"], "oracle": verdict}
                       if level == "L3" and verdict == REJ and fam == "core" else None)
         for clause, wcl, msg in probs:
@@ -489,6 +561,22 @@ def run(tier, seed):
                     drv.case(level, cls_id, {"matching_cost_method": method, "band": band}, verdict, "core", lab,
                              multiband=multiband, focus="band", part="band")
 
+        # 5b. left and right images with DIFFERENT band sets: a named band is accepted iff BOTH images carry it.
+        #     Smallest pipelines first; without and with a validation step (second round with the images swapped).
+        for pipe in ("min", "min+validation", "long-novalidation", "long"):
+            val = "validation" if pipe in ("min+validation", "long") else "novalidation"
+            for method in ("sad", "ssd", "zncc", "census"):
+                cls_id = "matching_cost." + method
+                for pair, (lb, rb) in BAND_PAIRS.items():
+                    for band in sorted(set(lb or ()) | set(rb or ())) + ["x"]:
+                        in_l, in_r = band in (lb or ()), band in (rb or ())
+                        verdict = ACC if (in_l and in_r) else REJ
+                        lab = {(True, True): "band-in-both", (True, False): "band-absent-from-right",
+                               (False, True): "band-absent-from-left", (False, False): "band-absent-from-both"}[in_l, in_r]
+                        for level in ("L2", "L2p", "L3"):
+                            drv.case(level, cls_id, {"matching_cost_method": method, "band": band}, verdict, "core",
+                                     "%s/%s" % (lab, val), focus="band", part="band-pair", images=pair, pipe=pipe)
+
         # 6. the shared matching-cost schema: the verdict on B must not depend on which class was checked before
         for first, second in itertools.permutations(("sad", "census", "zncc", "ssd"), 2):
             cls_id = "matching_cost." + second
@@ -528,7 +616,11 @@ def _result(rec, tier, n_combo):
               "pipeline, 24x32 GeoTIFF crops of tests/pandora left/right and left_rgb/right_rgb); all parameter pairs "
               "inside a class at L1 (%s grids); %d whole configurations with one grid value per parameter drawn at "
               "random in every step; method names {unknown, empty, other kind's, int, float, None, list, missing} x 8 "
-              "kinds x 3 levels; matching-cost band x {mono, multiband}; ordered pairs of matching-cost classes "
+              "kinds x 3 levels; matching-cost band x {mono, multiband (same bands left and right)}; matching-cost band x "
+              "{4 methods} x {image pairs with different left/right band sets: rgb|gbn, gbn|rgb, rgb|rg, rg|rgb, "
+              "rgb|mono, mono|rgb (synthetic GeoTIFFs)} x {every band name of either image + one of neither} x "
+              "{minimal / 7-8 step pipeline, without / with a validation step} x {PandoraMachine.check_conf, "
+              "check_pipeline_section, check_configuration.check_conf}; ordered pairs of matching-cost classes "
               "(shared schema); nodata grid on both sides; 'NaN'/'inf'/'-inf' strings"
               % ("full" if tier == "thorough" else "reduced", n_combo),
         rule="verdicts come from SPEC (statement + user-guide tables); accepted = no exception, rejected = any "
@@ -536,7 +628,9 @@ def _result(rec, tier, n_combo):
              "keys and order of pipeline steps kept, documented default for every omitted parameter, argument not "
              "mutated (deep comparison), re-checking the result returns it unchanged (key order included).  A case is "
              "(level, class, user cfg); all cases are non-trivial (each carries a verdict); distinct = distinct "
-             "(part, level, class, cfg).  Values on which statement and guide disagree or are silent are not on the "
+             "(part, level, class, cfg, image pair, pipeline shape).  Band oracle: a named band is in the domain iff it is "
+             "a band (rasterio description) of the left AND of the right image (a monoband image has no named band).  "
+             "Values on which statement and guide disagree or are silent are not on the "
              "grid.  Exact comparisons (nan-aware).  seed drives the random whole configurations only.")
 
 
@@ -631,5 +725,6 @@ def replay(witness):
             if part.startswith("interleave:"):
                 attempt(lambda: matching_cost.AbstractMatchingCost(matching_cost_method=part.split(":")[1], window_size=3))
             probs = judge(witness["level"], witness["cls"], dec(witness["cfg"]), witness["verdict"], witness["fam"],
-                          witness["label"], ctx, bool(witness["multiband"]), witness.get("focus"))
+                          witness["label"], ctx, bool(witness["multiband"]), witness.get("focus"),
+                          witness.get("images"), witness.get("pipe"))
         return any(c == clause for c, _, _ in probs)
